@@ -99,6 +99,7 @@ def h_hook(filename: str, content: str, c0: int, c1: int) -> bool:
 LISTS = ["void", "", "int", "void*", "void, int", "int, void*", "void (*cb)(void)", "void (*)(int)", "const char*", "..."]
 LONE_VOID = {"void": 1, "void (*cb)(void)": 1}  # how many lone-void lists the text itself contains (nested one counted here)
 MAXDEPTH = 2
+NFORMS = 17
 
 
 def gen_list(ch, depth):
@@ -110,8 +111,21 @@ def gen_list(ch, depth):
 
 def gen_decl(ch):
     """one declaration; returns (source, count of lone-void lists)"""
-    form = ch.pick(11)
+    form = ch.pick(NFORMS)
     a, na = gen_list(ch, 0)
+    v, nv = (a, na) if a in ("void", "") else ("void", 1)  # slots where C++ only allows `(void)` or `()`
+    if form == 11:
+        return f"struct S {{ virtual ~S({v}) = default; }};", nv
+    if form == 12:
+        return f"S::~S({v}) {{}} T<int>::~T({v}) {{}}", 2 * nv
+    if form == 13:
+        return f"struct S {{ operator int({v}) const; explicit operator bool({v}); S &operator=({a}); }};", 2 * nv + na
+    if form == 14:
+        return f"struct S {{ friend void ff({a}); ~S({v}) noexcept {{}} }};", na + nv
+    if form == 15:
+        return f"extern \"C\" int cf({a}); extern \"C\" {{ void cg({a}); }}", 2 * na
+    if form == 16:
+        return f"template <> int spec<int>({a}); template <typename T> struct W {{ ~W({v}); W({a}); }};", 2 * na + nv
     if form == 0:
         return f"int f({a});", na
     if form == 1:
@@ -327,10 +341,10 @@ def run(tier):
                      bound="all filenames and contents <= 4 chars; 3 entry points")
         tw = chrun.run(__name__, "h_void", [(0, 0)], timeout=60, globs=dict(TWIN=True), pool=pool)
         chrun.record(ck, tw, "void differential reachability twin", expect="refuted")
-        shards = [(a, b) for a in range(11) for b in range(len(LISTS))]
+        shards = [(a, b) for a in range(NFORMS) for b in range(len(LISTS))]
         res2 = chrun.run(__name__, "h_void", shards, timeout=(120 if tier == "quick" else 900), pool=pool)
         chrun.record(ck, res2, "convert_void_to_zero_params / verbose differential over generated declarations",
-                     bound=f"11 forms x {len(LISTS)} parameter lists per slot (up to 2 slots)")
+                     bound=f"{NFORMS} forms x {len(LISTS)} parameter lists per slot (up to 2 slots)")
         tw = chrun.run(__name__, "h_verbose", [(0, 0)], timeout=60, globs=dict(TWIN=True), pool=pool)
         chrun.record(ck, tw, "verbose differential reachability twin", expect="refuted")
         res3 = chrun.run(__name__, "h_verbose", [(a,) for a in range(len(VERB_FORMS))], timeout=(120 if tier == "quick" else 600), pool=pool)
